@@ -3,7 +3,7 @@
    Model: models/RevEpoch.v (snap/revision.go and snap/epoch.go function by function). *)
 From Coq Require Import List NArith ZArith Bool.
 Import ListNotations.
-Require Import V.lib.Bytes V.lib.Dec V.models.RevEpoch V.proofs.RevEpochProofs.
+Require Import V.lib.Bytes V.lib.Dec V.models.RevEpoch V.proofs.RevEpochProofs V.proofs.EpochJsonProofs.
 
 (* every revision except the single integer -2^63 reads back unchanged from its string, JSON and YAML forms *)
 Theorem C35_revision_roundtrip : forall n : Z, (min64 < n <= max64)%Z ->
@@ -51,12 +51,35 @@ Theorem C35_validate_spec : forall e : epoch, validate e = 0%N ->
 Proof. exact validate_ok_spec. Qed.
 Print Assumptions C35_validate_spec.
 
-(* epoch round-trip — PARTIAL. Full statement: every valid epoch reads back Equal from its printed form and from its
-   MarshalJSON form. Proved here for every valid epoch (entries < 2^32) whose printed form is a short form (`0`, `N`, `N*`),
-   through Epoch.fromString. Missing: the structured forms, which go through encoding/json (not modelled); for those the
-   model's printed bytes are compared with the implementation's, and the implementation's own parse-back is monitored. *)
-Theorem C35_epoch_short_roundtrip_partial : forall e : epoch,
+(* epoch round-trip. Every valid epoch (entries < 2^32) reads back Equal
+   (a) from its printed form String(): the short forms `0`, `N`, `N*` through Epoch.fromString ... *)
+Theorem C35_epoch_short_roundtrip : forall e : epoch,
   validate e = 0%N -> wf32 e -> is_short (epoch_string e) = true ->
   exists e', from_string (epoch_string e) = Some e' /\ epoch_equal e e' = true.
 Proof. exact epoch_short_roundtrip. Qed.
-Print Assumptions C35_epoch_short_roundtrip_partial.
+Print Assumptions C35_epoch_short_roundtrip.
+
+(* ... and the structured form {"read":[...],"write":[...]} through the object reader + Epoch.fromStructured; *)
+Theorem C35_epoch_structured_roundtrip : forall e : epoch,
+  validate e = 0%N -> wf32 e -> is_short (epoch_string e) = false ->
+  exists e', epoch_unmarshal_json (epoch_string e) = Some e' /\ epoch_equal e e' = true.
+Proof. exact epoch_string_structured_roundtrip. Qed.
+Print Assumptions C35_epoch_structured_roundtrip.
+
+(* (b) from its MarshalJSON form (always structured, empty lists printed as [0]).
+   PARTIAL only in this respect: encoding/json itself is not modelled; `epoch_unmarshal_json` reads exactly the byte
+   language json.Marshal produces for these values (no white space, fixed key order). That Go's decoder agrees with it
+   on those bytes is checked by the differential run on every generated epoch (mismatch compares the model's reading of
+   the marshalled bytes with the implementation's parse-back); other JSON spellings of the same object are outside the model. *)
+Theorem C35_epoch_marshal_roundtrip : forall e : epoch,
+  validate e = 0%N -> wf32 e ->
+  exists e', epoch_unmarshal_json (epoch_marshal_json e) = Some e' /\ epoch_equal e e' = true.
+Proof. exact epoch_marshal_roundtrip. Qed.
+Print Assumptions C35_epoch_marshal_roundtrip.
+
+(* non-vacuity: {read:[1,2,5], write:[5]} is valid, prints in the structured form and reads back *)
+Example C35_structured_example :
+  let e := mkEpoch (Some [1; 2; 5]%N) (Some [5]%N) in
+  validate e = 0%N /\ is_short (epoch_string e) = false /\
+  epoch_unmarshal_json (epoch_string e) = Some e /\ epoch_unmarshal_json (epoch_marshal_json e) = Some e.
+Proof. vm_compute. repeat split; reflexivity. Qed.
